@@ -5,6 +5,8 @@
    the frame, and the concrete server encodings are exercised by the example and by the
    correspondence run. *)
 From RdpV Require Import Base Msg LayoutsGlobal Link Tpkt Global C12_proofs C12_examples.
+From RdpV Require Import RefFraming RefFastPath RefInput RefSession RefSessionFacts StrictPdu C06_proofs C10_proofs C11_proofs
+                         C12_ref_proofs C12_ref_wire C12_ref_examples.
 Open Scope list_scope.
 Open Scope N_scope.
 
@@ -78,3 +80,204 @@ Theorem C12_nonvacuous :
    (SDemandActive, true, 0, 0)]%nat.
 Proof. exact activation_example. Qed.
 Print Assumptions C12_nonvacuous.
+
+(* ====================================================================================================
+   HISTORY LEVEL, over the property's 11-letter alphabet (RefSession.v: spec written from MS-RDPBCGR /
+   T.125, independent of the model).  A history is a list of [hop]s: the server sends a letter
+   [HRecv i m] -- m : smsg = DemandActive sid caps | Synchronize | ControlCooperate | ControlGranted |
+   ControlOther a | FontMap | SetErrorInfo code | UnknownData t body | DeactivateAll | FpBitmap rects |
+   FpOther code body, put on the wire by the REFERENCE ENCODER [enc_smsg i m] with server-chosen
+   identifiers i (initiator, PDUSource, share id of data PDUs, source descriptor, session id, target
+   user, grant / control ids, fast-path security flags and length form: any values of their types;
+   only the MCS channel must be the one the client joined) -- or the application offers an input event
+   ([HInput] strict write, [HTryInput] lenient write).  [hop_ok s0] = the letter is in its class
+   ([valid_smsg]: any u32 share id, ANY list of capability sets of any type and body, any control
+   action but cooperate / granted, any pduType2 but the four handled ones with any body, any fast-path
+   code but bitmap with any body, any rectangles), every field can carry its value, the user data fits
+   one PER length determinant (16383 bytes), [valid_ids].  All theorems: every history (induction, no
+   length bound), both build profiles.
+   ==================================================================================================== *)
+
+(* ONE READ of one letter in ANY state (not only reachable ones): the session state moves exactly as
+   the reference automaton's transition table [ref_step] says; a letter that the table does not move
+   on leaves the whole session and the wire untouched; nothing is ever written outside the
+   awaiting-activation state; the read never crashes. *)
+Theorem C12_advance_iff_expected :
+  forall p s i m,
+    ids_fit s i -> valid_smsg i m ->
+    let r := client_read p s (enc_smsg i m) in
+    abs (st (r_session r)) = ref_step (abs (st s)) m /\
+    (ref_step (abs (st s)) m = abs (st s) -> r_session r = s /\ r_wire r = []) /\
+    (st s <> SDemandActive -> r_wire r = []) /\
+    nocrash (r_out r).
+Proof. exact advance_iff_expected. Qed.
+Print Assumptions C12_advance_iff_expected.
+
+(* ... spelled out for the four waiting states: synchronize, cooperate, granted-control, font-map --
+   the state advances on its letter and on no other letter; every other letter leaves the session
+   as it was; nothing is written either way. *)
+Theorem C12_waiting_states :
+  forall p s i m g e n,
+    In (g, e, n) [(SSynchronize, Synchronize, SControlCooperate); (SControlCooperate, ControlCooperate, SControlGranted);
+                  (SControlGranted, ControlGranted, SFontMap); (SFontMap, FontMap, SData)] ->
+    st s = g -> ids_fit s i -> valid_smsg i m ->
+    let r := client_read p s (enc_smsg i m) in
+    r_wire r = [] /\ (m = e -> r_session r = set_state s n) /\ (m <> e -> r_session r = s).
+Proof. exact waiting_states. Qed.
+Print Assumptions C12_waiting_states.
+
+(* SIMULATION: along every history (letters and input attempts interleaved in any way) the client's
+   state is the reference automaton's state after the letters received, and user id, channel, screen
+   size, layout and name never change. *)
+Theorem C12_follows_reference :
+  forall p s0 hs,
+    st s0 = SDemandActive -> Forall (hop_ok s0) hs ->
+    st (after p s0 hs) = conc (ref_state (letters hs)) /\ same_but_state s0 (after p s0 hs).
+Proof. exact (fun p s0 hs Hst => history_state p s0 Hst hs). Qed.
+Print Assumptions C12_follows_reference.
+
+(* ONE FINALIZATION PER ANSWERED DEMAND-ACTIVE.  Along every history, the frames the client writes in
+   answer to the server's letters are exactly, for each demand-active received while it awaits
+   activation ([answered]), in order, the five frames [client_finalization] -- and these parse under
+   the strict parsers of StrictPdu.v (written from the standards) to exactly: confirm-active carrying
+   THAT demand-active's share id (and the client's name, screen size, layout, the twelve capability
+   sets), synchronize, control-cooperate, control-request-control, font-list, each carrying that share
+   id (the synchronize's targetUser is the server channel 0x03EA), with initiator = PDUSource = the
+   client's user id, on the I/O channel of the session -- whatever u16 id the server announced
+   ([client_ok]: [channel_id s0 < 65536], no longer the constant 1003).  Nothing else is written in
+   answer to any letter (demand-actives that are not awaited, repeated or out-of-order finalization
+   PDUs, unknown PDUs, deactivate-alls, fast-path updates). *)
+Theorem C12_one_finalization :
+  forall p s0 hs,
+    st s0 = SDemandActive -> client_ok s0 -> Forall (hop_ok s0) hs ->
+    recv_wire p s0 hs = flat_map (client_finalization p s0) (answered (letters hs)) /\
+    Forall2 (fun f d => strict_parse f = Some d)
+            (recv_wire p s0 hs) (flat_map (finalization_pdus s0) (answered (letters hs))) /\
+    map cpdu_of (flat_map (finalization_pdus s0) (answered (letters hs))) = map Some (expected_output (letters hs)).
+Proof.
+  exact (fun p s0 hs Hst Hc Hok =>
+           conj (history_one_finalization p s0 Hst hs Hok)
+                (conj (history_one_finalization_strict p s0 hs Hst Hc Hok) (expected_output_abstraction s0 (letters hs)))).
+Qed.
+Print Assumptions C12_one_finalization.
+
+(* The same for a server that only sends letters: EVERYTHING on the wire after reading the reference
+   encodings of h. *)
+Theorem C12_one_finalization_reads :
+  forall p s0 (ims : list (ids * smsg)),
+    st s0 = SDemandActive -> client_ok s0 ->
+    Forall (fun im => ids_fit s0 (fst im) /\ valid_smsg (fst im) (snd im)) ims ->
+    Forall2 (fun f d => strict_parse f = Some d)
+            (List.concat (map r_wire (run_ops p s0 (map (fun im => OpRead (enc_smsg (fst im) (snd im))) ims))))
+            (flat_map (finalization_pdus s0) (answered (map snd ims))).
+Proof. exact history_one_finalization_reads_strict. Qed.
+Print Assumptions C12_one_finalization_reads.
+
+(* INPUT WINDOW, both directions: after every history an input attempt is accepted IFF the reference
+   automaton is inside the window (a font-map completed synchronize -> cooperate -> granted since the
+   last answered demand-active, no deactivate-all since).  Inside: exactly one frame, byte for byte the
+   reference input PDU (RefInput.v) of THAT event carrying the share id of the last answered
+   demand-active and the client's user id; the session is unchanged; the lenient write does the same.
+   Outside: the strict write is refused with InvalidAutomata, the lenient write returns Ok; no byte on
+   the wire, no event, session unchanged. *)
+Theorem C12_input_window :
+  forall p s0 hs e r,
+    st s0 = SDemandActive -> Forall (hop_ok s0) hs -> to_ref e = Some r ->
+    let s := after p s0 hs in
+    is_ok (r_out (client_write p s e)) = window (letters hs) /\
+    (window (letters hs) = true ->
+       client_write p s e
+         = mkStep s (Ok tt) [ref_input_frame (user_id s0) (channel_id s0) (current_share (letters hs)) r] [] /\
+       client_try_write p s e = client_write p s e) /\
+    (window (letters hs) = false ->
+       client_write p s e = mkStep s (Err EInvalidAutomata) [] [] /\
+       client_try_write p s e = mkStep s (Ok tt) [] []).
+Proof. exact (fun p s0 hs e r Hst => history_input_window p s0 Hst hs e r). Qed.
+Print Assumptions C12_input_window.
+
+(* The same as one equation against the specification's expected output: what either write puts on
+   the wire after any history is [expected_input_frames] (one reference input PDU in the current share
+   inside the window, nothing outside), and neither write moves the session. *)
+Theorem C12_input_frames :
+  forall p s0 hs e r,
+    st s0 = SDemandActive -> Forall (hop_ok s0) hs -> to_ref e = Some r ->
+    r_wire (client_write p (after p s0 hs) e) = expected_input_frames (user_id s0) (channel_id s0) (letters hs) r /\
+    r_wire (client_try_write p (after p s0 hs) e) = expected_input_frames (user_id s0) (channel_id s0) (letters hs) r /\
+    r_session (client_write p (after p s0 hs) e) = after p s0 hs /\
+    r_session (client_try_write p (after p s0 hs) e) = after p s0 hs.
+Proof. exact (fun p s0 hs e r Hst => history_input_frames p s0 Hst hs e r). Qed.
+Print Assumptions C12_input_frames.
+
+(* BITMAP EVENTS, as one equation: reading ANY letter after ANY history invokes the callback with exactly
+   [expected_bitmaps] -- the rectangles of a fast-path bitmap letter, in wire order, iff inside the
+   window; nothing otherwise. *)
+Theorem C12_bitmaps_exact :
+  forall p s0 hs i m,
+    st s0 = SDemandActive -> Forall (hop_ok s0) hs -> ids_fit s0 i -> valid_smsg i m ->
+    r_events (client_read p (after p s0 hs) (enc_smsg i m)) = map event_of (expected_bitmaps (letters hs) m).
+Proof. exact (fun p s0 hs i m Hst => history_bitmaps p s0 Hst hs i m). Qed.
+Print Assumptions C12_bitmaps_exact.
+
+(* BITMAP EVENTS only inside the window: after every history, if reading a letter invokes the callback
+   at all, then the reference automaton is inside the window and the letter is a fast-path bitmap
+   update with at least one rectangle. *)
+Theorem C12_bitmaps_only_in_window :
+  forall p s0 hs i m,
+    st s0 = SDemandActive -> Forall (hop_ok s0) hs -> ids_fit s0 i -> valid_smsg i m ->
+    r_events (client_read p (after p s0 hs) (enc_smsg i m)) <> [] ->
+    window (letters hs) = true /\ exists rects, m = FpBitmap rects /\ rects <> [].
+Proof. exact (fun p s0 hs i m Hst => bitmaps_only_in_window p s0 Hst hs i m). Qed.
+Print Assumptions C12_bitmaps_only_in_window.
+
+(* ... and inside the window every fast-path bitmap letter delivers exactly its rectangles, once each,
+   in wire order, with the transmitted values (C10's exactness, at every point of every history). *)
+Theorem C12_bitmaps_delivered_in_window :
+  forall p s0 hs i rects,
+    st s0 = SDemandActive -> Forall (hop_ok s0) hs -> ids_fit s0 i -> valid_smsg i (FpBitmap rects) ->
+    window (letters hs) = true ->
+    r_events (client_read p (after p s0 hs) (enc_smsg i (FpBitmap rects))) = map event_of (map seen_of rects).
+Proof. exact (fun p s0 hs i rects Hst => bitmaps_delivered_in_window p s0 Hst hs i rects). Qed.
+Print Assumptions C12_bitmaps_delivered_in_window.
+
+(* The reference automaton says what the property says: its executable [awaits] / [window] coincide
+   with the declarative reading of the two history predicates, defined WITHOUT the transition table:
+   [awaiting h] -- no demand-active since the start or since the deactivate-all that closed a window;
+   [in_window h] -- h = h0 ++ DemandActive :: a ++ Synchronize :: b ++ ControlCooperate :: c ++
+   ControlGranted :: d ++ FontMap :: e with awaiting h0, no synchronize in a, no cooperate in b, no
+   granted in c, no font-map in d, no deactivate-all in e. *)
+Theorem C12_window_declarative :
+  forall h, (awaiting h <-> awaits h = true) /\ (in_window h <-> window h = true).
+Proof. exact (fun h => conj (awaiting_iff h) (in_window_iff h)). Qed.
+Print Assumptions C12_window_declarative.
+
+(* Non-vacuity: a concrete 25-step history with re-activation (two answered demand-actives with known,
+   unknown, truncated and empty capability sets, one ignored; a refused control action; an ignored
+   deactivate-all during finalization; input refused / dropped / accepted; rectangles refused / delivered;
+   set-error-info, unknown data PDU, fast-path other; deactivate-all; second activation under other
+   server identifiers and the long fast-path form) satisfies the hypotheses; the reference automaton
+   answers [0x103ea; 0x203eb] and ends inside the window; the model, computed step by step on the
+   reference encodings, agrees; the Coq reference encoder reproduces the python reference
+   encoder's frames byte for byte; and a session whose I/O channel is 1007 (not 1003) satisfies the
+   hypotheses, activates, and its five answer frames parse strictly to [finalization_pdus] on channel 1007. *)
+Theorem C12_history_nonvacuous :
+  Forall (hop_ok hx_s0) hx_hist /\ st hx_s0 = SDemandActive /\ client_ok hx_s0 /\
+  answered (letters hx_hist) = [66538; 132075] /\ window (letters hx_hist) = true /\
+  current_share (letters hx_hist) = 132075 /\
+  (forall p, map summary (run_ops p hx_s0 (map hop_op hx_hist)) =
+   [(SDemandActive, false, 0, 0); (SSynchronize, true, 5, 0); (SSynchronize, true, 0, 0); (SControlCooperate, true, 0, 0);
+    (SControlCooperate, true, 0, 0); (SControlGranted, true, 0, 0); (SControlGranted, false, 0, 0); (SFontMap, true, 0, 0);
+    (SFontMap, true, 0, 0); (SFontMap, false, 0, 0); (SData, true, 0, 0); (SData, true, 1, 0); (SData, true, 0, 2);
+    (SData, true, 0, 0); (SData, true, 0, 0); (SData, true, 0, 0); (SDemandActive, true, 0, 0); (SDemandActive, false, 0, 0);
+    (SSynchronize, true, 5, 0); (SControlCooperate, true, 0, 0); (SControlGranted, true, 0, 0); (SFontMap, true, 0, 0);
+    (SData, true, 0, 0); (SData, true, 1, 0); (SData, true, 0, 2)]%nat) /\
+  enc_smsg py_ids (DemandActive 66538 py_caps) = ex_da /\ enc_smsg py_ids Synchronize = ex_sync /\
+  enc_smsg py_ids_granted ControlGranted = ex_granted /\ enc_smsg py_ids (FpBitmap hx_rects) = ex_fpbmp /\
+  enc_smsg py_ids_deact DeactivateAll = ex_deact /\
+  (* the same on an I/O channel other than 1003 (the server announced 1007) *)
+  (Forall (hop_ok io_s0) io_hist /\ client_ok io_s0 /\ st io_s0 = SDemandActive) /\
+  (forall p, map summary (run_ops p io_s0 (map hop_op io_hist)) =
+             [(SSynchronize, true, 5, 0); (SControlCooperate, true, 0, 0); (SControlGranted, true, 0, 0); (SFontMap, true, 0, 0);
+              (SData, true, 0, 0); (SData, true, 1, 0); (SData, true, 0, 2)]%nat /\
+             map strict_parse (client_finalization p io_s0 66538) = map Some (finalization_pdus io_s0 66538)).
+Proof. exact hx_nonvacuous. Qed.
+Print Assumptions C12_history_nonvacuous.
